@@ -1,4 +1,834 @@
-//! C12 — not built yet.
+//! C12 — contexts survive serialization; malformed input is an error, not a crash.
+//! Native oracle on /repo's real code: to_string -> from_str gives a deeply equal context that
+//! evaluates identically, a second to_string gives the same text; deserializing mutated text
+//! never panics and never yields an ill-formed context.
+//! Correspondence with Model/Serde.v on the structural layer (the inner payload as a data
+//! structure): `ser` of a model state against Rust's payload, `deser` (replay through the C11
+//! `step`) against Rust's from_str on valid payloads and on structural mutants.
+use crate::c11::{check_invariants, classify, graph_annot_code, node_annot_code, observe_ctx, random_history, size_estimate, Tags, POOL};
+use crate::coqfmt::coq_string;
 use crate::out::Out;
-pub const HEADER: &str = "From CC Require Import Base.Prelude.";
-pub fn run(_tier: &str, _seed: u64, _out: &mut Out) {}
+use crate::rng::Rng;
+use ciphercore_base::custom_ops::{run_instantiation_pass, CustomOperation, Not, Or};
+use ciphercore_base::data_types::*;
+use ciphercore_base::data_values::Value;
+use ciphercore_base::evaluators::evaluate_simple_evaluator;
+use ciphercore_base::evaluators::simple_evaluator::SimpleEvaluator;
+use ciphercore_base::graphs::{create_context, Context, Graph, GraphAnnotation, NodeAnnotation, Operation};
+use ciphercore_base::inline::inline_ops::{inline_operations, DepthOptimizationLevel, InlineConfig, InlineMode};
+use ciphercore_base::mpc::mpc_compiler::{prepare_for_mpc_evaluation, IOStatus};
+use ciphercore_base::ops::adder::BinaryAdd;
+use ciphercore_base::ops::clip::Clip2K;
+use ciphercore_base::ops::comparisons::{Equal, GreaterThan, LessThan, NotEqual};
+use ciphercore_base::ops::min_max::{Max, Min};
+use ciphercore_base::ops::multiplexer::Mux;
+use ciphercore_base::optimizer::optimize::optimize_context;
+use serde::Deserialize;
+use serde_json::{json, Value as J};
+use std::collections::HashSet;
+use std::panic::{catch_unwind, AssertUnwindSafe};
+
+pub const HEADER: &str = "From CC Require Import Base.Prelude Model.Api Model.Serde.";
+
+type R<T> = ciphercore_base::errors::Result<T>;
+
+// ---- the inner payload as a data structure (mirror of SerializableContextBody) ---------------
+#[derive(Deserialize)]
+struct PNode {
+    node_dependencies: Vec<u64>,
+    graph_dependencies: Vec<u64>,
+    operation: Operation,
+}
+#[derive(Deserialize)]
+struct PGraph {
+    finalized: bool,
+    nodes: Vec<PNode>,
+    output_node: Option<u64>,
+}
+#[derive(Deserialize)]
+struct PCtx {
+    finalized: bool,
+    graphs: Vec<PGraph>,
+    main_graph: Option<u64>,
+    graphs_names: Vec<(u64, String)>,
+    nodes_names: Vec<((u64, u64), String)>,
+    nodes_annotations: Vec<((u64, u64), Vec<NodeAnnotation>)>,
+    graphs_annotations: Vec<(u64, Vec<GraphAnnotation>)>,
+}
+
+fn lst<T, F: Fn(&T) -> String>(xs: &[T], f: F) -> String {
+    let v: Vec<String> = xs.iter().map(f).collect();
+    format!("[{}]", v.join("; "))
+}
+fn opt<T, F: Fn(&T) -> String>(o: &Option<T>, f: F) -> String {
+    match o {
+        Some(x) => format!("(Some {})", f(x)),
+        None => "None".to_string(),
+    }
+}
+fn b(x: bool) -> &'static str {
+    if x { "true" } else { "false" }
+}
+fn nums(xs: &[u64]) -> String {
+    lst(xs, |x| x.to_string())
+}
+
+/// Gallina term of type sctx
+fn sctx_term(p: &PCtx, tags: &mut Tags) -> String {
+    let mut gs = vec![];
+    for g in &p.graphs {
+        let ns: Vec<String> = g.nodes.iter().map(|n| format!("mkSNode {} {} {}", nums(&n.node_dependencies), nums(&n.graph_dependencies), tags.op(&n.operation))).collect();
+        gs.push(format!("mkSGraph {} [{}] {}", b(g.finalized), ns.join("; "), opt(&g.output_node, |x| x.to_string())));
+    }
+    format!(
+        "(mkSCtx {} [{}] {} {} {} {} {})",
+        b(p.finalized),
+        gs.join("; "),
+        opt(&p.main_graph, |x| x.to_string()),
+        lst(&p.graphs_names, |(g, s)| format!("({}, {})", g, coq_string(s))),
+        lst(&p.nodes_names, |((g, n), s)| format!("(({}, {}), {})", g, n, coq_string(s))),
+        lst(&p.nodes_annotations, |((g, n), a)| format!("(({}, {}), {})", g, n, lst(a, |x| node_annot_code(x).to_string()))),
+        lst(&p.graphs_annotations, |(g, a)| format!("({}, {})", g, lst(a, |x| graph_annot_code(x).to_string())))
+    )
+}
+
+/// The type checker's answers along the reconstruction of `p`, obtained by an independent replay
+/// through the public API (stops at the first point where the reconstruction must fail).
+fn replay_answers(p: &PCtx, tags: &mut Tags) -> String {
+    let mut tbl: Vec<String> = vec![];
+    let ctx = create_context().unwrap();
+    'outer: for (gi, g) in p.graphs.iter().enumerate() {
+        let gr = ctx.create_graph().unwrap();
+        for (ni, n) in g.nodes.iter().enumerate() {
+            let cur = gr.get_nodes();
+            if n.node_dependencies.iter().any(|d| *d >= cur.len() as u64) {
+                break 'outer;
+            }
+            let graphs = ctx.get_graphs();
+            if n.graph_dependencies.iter().any(|d| *d >= graphs.len() as u64) {
+                break 'outer;
+            }
+            let deps = n.node_dependencies.iter().map(|d| cur[*d as usize].clone()).collect();
+            let gdeps = n.graph_dependencies.iter().map(|d| graphs[*d as usize].clone()).collect();
+            let in_ty: Option<Type> = match &n.operation { Operation::Input(t) => Some(t.clone()), Operation::Constant(t, _) => Some(t.clone()), _ => None };
+            let a_in = match &in_ty {
+                None => "None".to_string(),
+                Some(t) => format!("(Some {})", opt(&(if t.is_valid() { size_estimate(t) } else { None }), |x| x.to_string())),
+            };
+            let op = n.operation.clone();
+            let r = catch_unwind(AssertUnwindSafe(|| gr.add_node(deps, gdeps, op)));
+            match r {
+                Ok(Ok(node)) => {
+                    let t = node.get_type().unwrap();
+                    tbl.push(format!("(({}, {}), mkAns (Some {}) {} {})", gi, ni, tags.ty(&t), opt(&size_estimate(&t), |x| x.to_string()), a_in));
+                }
+                Ok(Err(e)) => {
+                    let mut code = classify("add_node", &e.to_string());
+                    if e.to_string().contains("overflow!") {
+                        code = if in_ty.as_ref().map_or(false, |t| size_estimate(t).is_some()) { 16 } else { 13 };
+                    }
+                    let (a_ty, a_sz) = if code == 13 { ("None".to_string(), "None".to_string()) } else {
+                        ("(Some 0)".to_string(), match &in_ty { Some(t) => opt(&size_estimate(t), |x| x.to_string()), None => if code == 14 { "None".to_string() } else { "(Some 0)".to_string() } })
+                    };
+                    tbl.push(format!("(({}, {}), mkAns {} {} {})", gi, ni, a_ty, a_sz, a_in));
+                    break 'outer;
+                }
+                Err(_) => break 'outer,
+            }
+        }
+        if let Some(o) = g.output_node {
+            let cur = gr.get_nodes();
+            if o >= cur.len() as u64 || gr.set_output_node(cur[o as usize].clone()).is_err() {
+                break 'outer;
+            }
+        }
+        if g.finalized && gr.finalize().is_err() {
+            break 'outer;
+        }
+    }
+    format!("[{}]", tbl.join("; "))
+}
+
+fn node_count(p: &PCtx) -> usize {
+    p.graphs.iter().map(|g| g.nodes.len()).sum()
+}
+
+#[derive(Debug)]
+enum De {
+    Ok(Context),
+    Err,
+    Panic,
+}
+fn deserialize(text: &str) -> De {
+    match catch_unwind(AssertUnwindSafe(|| serde_json::from_str::<Context>(text))) {
+        Ok(Ok(c)) => De::Ok(c),
+        Ok(Err(_)) => De::Err,
+        Err(_) => De::Panic,
+    }
+}
+fn envelope(version: u64, inner: &J) -> String {
+    json!({"version": version, "data": inner.to_string()}).to_string()
+}
+fn split_envelope(text: &str) -> (u64, J) {
+    let env: J = serde_json::from_str(text).unwrap();
+    (env["version"].as_u64().unwrap(), serde_json::from_str(env["data"].as_str().unwrap()).unwrap())
+}
+
+// ---- random values of a type -------------------------------------------------------------------
+fn random_value(t: &Type, rng: &mut Rng) -> Value {
+    match t {
+        Type::Scalar(st) => {
+            let w = st.size_in_bits();
+            let x = if w == 128 { rng.u128() } else { rng.u128() & ((1u128 << w) - 1) };
+            Value::from_flattened_array(&[x], *st).unwrap()
+        }
+        Type::Array(sh, st) => {
+            let n: u64 = sh.iter().product();
+            let w = st.size_in_bits();
+            let xs: Vec<u128> = (0..n).map(|_| if w == 128 { rng.u128() } else { rng.u128() & ((1u128 << w) - 1) }).collect();
+            Value::from_flattened_array(&xs, *st).unwrap()
+        }
+        Type::Vector(n, e) => Value::from_vector((0..*n).map(|_| random_value(e, rng)).collect()),
+        Type::Tuple(ts) => Value::from_vector(ts.iter().map(|e| random_value(e, rng)).collect()),
+        Type::NamedTuple(fs) => Value::from_vector(fs.iter().map(|(_, e)| random_value(e, rng)).collect()),
+    }
+}
+fn main_inputs(ctx: &Context, _rng: &mut Rng) -> Option<(Graph, Vec<Value>)> {
+    ctx.check_finalized().ok()?;
+    let g = ctx.get_main_graph().ok()?;
+    for n in g.get_nodes() {
+        if let Operation::Input(t) = n.get_operation() {
+            // huge declared types (size-limit histories) cannot be materialised
+            if size_estimate(&t).map_or(true, |s| s > 1_000_000) {
+                return None;
+            }
+        }
+    }
+    Some((g, vec![]))
+}
+
+// ---- the library's context kinds -----------------------------------------------------------------
+fn annotate_all(g: &Graph) -> R<()> {
+    let nodes = g.get_nodes();
+    let anns = [
+        NodeAnnotation::AssociativeOperation,
+        NodeAnnotation::Private,
+        NodeAnnotation::Send(0, 1),
+        NodeAnnotation::Send(2, 0),
+        NodeAnnotation::PRFMultiplication,
+        NodeAnnotation::PRFB2A,
+        NodeAnnotation::PRFTruncate,
+        NodeAnnotation::MpcCall,
+    ];
+    for (i, a) in anns.iter().enumerate() {
+        nodes[i % nodes.len()].add_annotation(a.clone())?;
+    }
+    g.add_annotation(GraphAnnotation::AssociativeOperation)?;
+    g.add_annotation(GraphAnnotation::OneBitState)?;
+    g.add_annotation(GraphAnnotation::SmallState)?;
+    Ok(())
+}
+
+fn plain_context(rng: &mut Rng, finalize: bool) -> R<Context> {
+    let c = create_context()?;
+    let g = c.create_graph()?;
+    g.set_name("main graph")?;
+    let st = *rng.pick(&[INT32, UINT64, INT64, UINT128, INT128]);
+    let t = array_type(vec![2, 3], st);
+    let a = g.input(t.clone())?;
+    a.set_name("a")?;
+    let bb = g.input(t.clone())?;
+    bb.set_name("b \"quoted\" \u{e9}")?;
+    // 128-bit constants
+    let k128 = g.constant(scalar_type(UINT128), Value::from_scalar(u128::MAX - rng.below(1000) as u128, UINT128)?)?;
+    let ki128 = g.constant(array_type(vec![2], INT128), Value::from_flattened_array(&[i128::MIN + 5, -1i128], INT128)?)?;
+    let s = a.add(bb.clone())?.multiply(a.clone())?.subtract(bb.clone())?;
+    let s2 = s.sum(vec![0])?;
+    let p = s.permute_axes(vec![1, 0])?;
+    let r = p.reshape(array_type(vec![6], st))?;
+    let bits = r.a2b()?;
+    let back = bits.b2a(st)?;
+    let tup = g.create_tuple(vec![s2.clone(), back.clone(), k128.clone(), ki128.clone()])?;
+    let named = g.create_named_tuple(vec![("x".to_string(), s2.clone()), ("y".to_string(), back.clone())])?;
+    let got = named.named_tuple_get("y".to_string())?;
+    let vecn = g.create_vector(array_type(vec![6], st), vec![back.clone(), got.clone()])?;
+    let arr = vecn.vector_to_array()?;
+    let z = g.zeros(array_type(vec![2, 6], st))?;
+    let fin = arr.add(z)?;
+    let o = g.create_tuple(vec![tup.tuple_get(0)?, fin, g.random(array_type(vec![2], BIT))?])?;
+    o.set_name("out")?;
+    o.set_as_output()?;
+    annotate_all(&g)?;
+    if finalize {
+        g.finalize()?;
+        g.set_as_main()?;
+        c.finalize()?;
+    }
+    Ok(c)
+}
+
+fn call_context(rng: &mut Rng) -> R<Context> {
+    let c = create_context()?;
+    let st = *rng.pick(&[INT32, UINT64, UINT8]);
+    let t = array_type(vec![3], st);
+    // callee
+    let f = c.create_graph()?;
+    f.set_name("f")?;
+    let x = f.input(t.clone())?;
+    let y = f.input(t.clone())?;
+    x.add(y.clone())?.multiply(y)?.set_as_output()?;
+    f.finalize()?;
+    // iterate body: (state, input) -> (state, output)
+    let body = c.create_graph()?;
+    let stn = body.input(t.clone())?;
+    let inp = body.input(t.clone())?;
+    let ns = stn.add(inp.clone())?;
+    body.create_tuple(vec![ns.clone(), ns.multiply(inp)?])?.set_as_output()?;
+    body.add_annotation(GraphAnnotation::AssociativeOperation)?;
+    body.finalize()?;
+    let g = c.create_graph()?;
+    let a = g.input(t.clone())?;
+    a.set_name("a")?;
+    let bb = g.input(t.clone())?;
+    let called = g.call(f.clone(), vec![a.clone(), bb.clone()])?;
+    let called2 = g.call(f, vec![called.clone(), a.clone()])?;
+    let v = g.create_vector(t.clone(), vec![a.clone(), bb.clone(), called2.clone()])?;
+    let it = g.iterate(body, called, v)?;
+    g.create_tuple(vec![it.tuple_get(0)?, it.tuple_get(1)?.vector_to_array()?, called2])?.set_as_output()?;
+    g.finalize()?;
+    g.set_as_main()?;
+    c.finalize()?;
+    Ok(c)
+}
+
+fn custom_context(rng: &mut Rng) -> R<Context> {
+    let c = create_context()?;
+    let g = c.create_graph()?;
+    let w = 8 * (1 + rng.below(2));
+    let t = array_type(vec![2, w], BIT);
+    let a = g.input(t.clone())?;
+    let bb = g.input(t.clone())?;
+    let signed = rng.chance(1, 2);
+    let n = g.custom_op(CustomOperation::new(Not {}), vec![a.clone()])?;
+    let o = g.custom_op(CustomOperation::new(Or {}), vec![n, bb.clone()])?;
+    let s = g.custom_op(CustomOperation::new(BinaryAdd { overflow_bit: false }), vec![o.clone(), bb.clone()])?;
+    let gt = g.custom_op(CustomOperation::new(GreaterThan { signed_comparison: signed }), vec![s.clone(), a.clone()])?;
+    let lt = g.custom_op(CustomOperation::new(LessThan { signed_comparison: signed }), vec![s.clone(), a.clone()])?;
+    let eq = g.custom_op(CustomOperation::new(Equal {}), vec![s.clone(), bb.clone()])?;
+    let ne = g.custom_op(CustomOperation::new(NotEqual {}), vec![s.clone(), bb.clone()])?;
+    let mn = g.custom_op(CustomOperation::new(Min { signed_comparison: signed }), vec![s.clone(), a.clone()])?;
+    let mx = g.custom_op(CustomOperation::new(Max { signed_comparison: signed }), vec![mn.clone(), bb.clone()])?;
+    let flag = gt.reshape(array_type(vec![2, 1], BIT))?;
+    let mux = g.custom_op(CustomOperation::new(Mux {}), vec![flag, mx.clone(), a.clone()])?;
+    let clip = g.custom_op(CustomOperation::new(Clip2K { k: 3 }), vec![mux.clone()])?;
+    g.create_tuple(vec![clip, gt, lt, eq, ne, mx])?.set_as_output()?;
+    g.finalize()?;
+    g.set_as_main()?;
+    c.finalize()?;
+    Ok(c)
+}
+
+fn arith_context(rng: &mut Rng, with_bits: bool) -> R<Context> {
+    let c = create_context()?;
+    let g = c.create_graph()?;
+    let st = *rng.pick(&[INT32, UINT32, INT64]);
+    let t = array_type(vec![2], st);
+    let a = g.input(t.clone())?;
+    a.set_name("a")?;
+    let bb = g.input(t.clone())?;
+    let k = g.constant(scalar_type(st), Value::from_scalar(rng.below(1000), st)?)?;
+    let mut r = a.multiply(bb.clone())?.add(k)?;
+    if with_bits {
+        r = r.a2b()?.b2a(st)?.add(a)?;
+    }
+    r.set_as_output()?;
+    g.finalize()?;
+    g.set_as_main()?;
+    c.finalize()?;
+    Ok(c)
+}
+
+fn compiled(ctx: &Context, rng: &mut Rng) -> R<Context> {
+    let ins = vec![match rng.below(3) { 0 => IOStatus::Party(0), 1 => IOStatus::Public, _ => IOStatus::Party(2) }, IOStatus::Party(1)];
+    let outs = if rng.chance(1, 2) { vec![IOStatus::Party(0)] } else { vec![IOStatus::Party(0), IOStatus::Party(1), IOStatus::Party(2)] };
+    let cfg = InlineConfig { default_mode: InlineMode::Simple, ..Default::default() };
+    Ok(prepare_for_mpc_evaluation(ctx, vec![ins], vec![outs], cfg)?.get_context())
+}
+
+/// All checks on one valid context.  `model`: also emit the model cases.
+fn roundtrip(ctx: &Context, kind: &str, rng: &mut Rng, tags: &mut Tags, out: &mut Out, model: bool, calls: Option<&Vec<String>>) -> Option<String> {
+    out.stat(&format!("kind:{}", kind));
+    let input = json!({"kind": kind, "graphs": ctx.get_num_graphs(), "nodes": ctx.get_graphs().iter().map(|g| g.get_num_nodes()).sum::<u64>()});
+    let text = match catch_unwind(AssertUnwindSafe(|| serde_json::to_string(ctx))) {
+        Ok(Ok(t)) => t,
+        _ => {
+            out.violation("serialize-fails", input, "to_string failed or panicked".into());
+            return None;
+        }
+    };
+    // serializing twice gives the same text
+    let text_again = serde_json::to_string(ctx).unwrap();
+    if text != text_again {
+        out.violation("serialize-not-deterministic", input.clone(), "two to_string calls differ".into());
+    } else {
+        out.oracle_ok();
+    }
+    let ctx2 = match deserialize(&text) {
+        De::Ok(c) => c,
+        De::Err => {
+            out.violation("roundtrip-fails", input.clone(), "from_str rejects the text to_string produced".into());
+            return Some(text);
+        }
+        De::Panic => {
+            out.violation("deserialize-panics", input.clone(), "from_str panics on the text to_string produced".into());
+            return Some(text);
+        }
+    };
+    if !ctx.deep_equal(ctx2.clone()) {
+        out.violation("roundtrip-not-deep-equal", input.clone(), "deserialized context is not deep_equal".into());
+    } else {
+        out.oracle_ok();
+    }
+    // the copy serializes to the same text (canonical table order)
+    if serde_json::to_string(&ctx2).unwrap() != text {
+        out.violation("reserialize-differs", input.clone(), "to_string of the deserialized context differs".into());
+    } else {
+        out.oracle_ok();
+    }
+    match check_invariants(&ctx2, &HashSet::new()) {
+        Ok(()) => out.oracle_ok(),
+        Err(m) => out.violation("deserialize-ill-formed", input.clone(), m),
+    }
+    // node types are re-inferred: they must coincide with the original's (also when the original's
+    // were supplied by the compiler)
+    let mut types_ok = true;
+    for (g1, g2) in ctx.get_graphs().iter().zip(ctx2.get_graphs().iter()) {
+        for (n1, n2) in g1.get_nodes().iter().zip(g2.get_nodes().iter()) {
+            if n1.get_type().ok() != n2.get_type().ok() {
+                types_ok = false;
+            }
+        }
+    }
+    if !types_ok {
+        out.violation("roundtrip-changes-types", input.clone(), "a node type differs after the round trip".into());
+    } else {
+        out.oracle_ok();
+    }
+    // equal evaluation on random inputs (same PRNG seed on both sides)
+    if let (Some((g1, v1)), Some((g2, _))) = (main_inputs(ctx, &mut rng.clone()), main_inputs(&ctx2, &mut rng.clone())) {
+        for _ in 0..2 {
+            let seed: [u8; 16] = rng.u128().to_le_bytes();
+            let vals: Vec<Value> = g1.get_nodes().iter().filter_map(|n| if let Operation::Input(t) = n.get_operation() { Some(random_value(&t, rng)) } else { None }).collect();
+            let _ = v1.len();
+            let r1 = catch_unwind(AssertUnwindSafe(|| evaluate_simple_evaluator(g1.clone(), vals.clone(), Some(seed))));
+            let r2 = catch_unwind(AssertUnwindSafe(|| evaluate_simple_evaluator(g2.clone(), vals.clone(), Some(seed))));
+            match (r1, r2) {
+                (Ok(Ok(a)), Ok(Ok(bv))) => {
+                    if a != bv {
+                        out.violation("roundtrip-evaluates-differently", input.clone(), "evaluation differs after the round trip".into());
+                    } else {
+                        out.oracle_ok();
+                        out.stat("evaluated");
+                    }
+                }
+                (Ok(Err(_)), Ok(Err(_))) => out.stat("evaluation-errs-both"),
+                _ => out.violation("roundtrip-evaluates-differently", input.clone(), "one side fails to evaluate".into()),
+            }
+        }
+    }
+    // ---- model ----
+    if model {
+        let (ver, inner) = split_envelope(&text);
+        if let Ok(p) = serde_json::from_value::<PCtx>(inner) {
+            let n = node_count(&p);
+            let x = sctx_term(&p, tags);
+            let tbl = replay_answers(&p, tags);
+            let obs2 = observe_ctx(&ctx2, tags, &HashSet::new(), &POOL).full();
+            let pool = lst(&POOL, |s| coq_string(s));
+            out.case("deser_valid", format!("(deser_obs {} {} ({}, {}))%N", pool, tbl, ver, x), format!("(Ok {})%N", obs2), input.clone(), n > 3);
+            out.case("ser_of_deser", format!("(rmap ser (deser_env (tc_of {}) ({}, {})))%N", tbl, ver, x), format!("(Ok {})%N", x), input.clone(), n > 3);
+            if let Some(cs) = calls {
+                out.case("ser_of_history", format!("(ser_env (run [{}]))%N", cs.join("; ")), format!("({}, {})%N", ver, x), input.clone(), !p.graphs_names.is_empty() || !p.nodes_names.is_empty());
+            }
+        }
+    }
+    Some(text)
+}
+
+// ---- structural mutants of the inner payload -----------------------------------------------------
+fn big(rng: &mut Rng, len: u64) -> u64 {
+    match rng.below(5) {
+        0 => len,
+        1 => len + 1 + rng.below(3),
+        2 => u64::MAX,
+        3 => 1u64 << 32,
+        _ => len + 7,
+    }
+}
+/// Applies one structural mutation; returns its name (None: not applicable).
+fn mutate(ver: &mut u64, inner: &mut J, rng: &mut Rng) -> Option<&'static str> {
+    let ng = inner["graphs"].as_array().map_or(0, |a| a.len()) as u64;
+    let pick_graph = |rng: &mut Rng| -> Option<usize> { if ng == 0 { None } else { Some(rng.below(ng) as usize) } };
+    match rng.below(22) {
+        0 => {
+            *ver = *rng.pick(&[0, 1, 3, u64::MAX]);
+            Some("wrong-version")
+        }
+        1 => {
+            let t = *rng.pick(&["graphs_names", "nodes_names", "nodes_annotations", "graphs_annotations", "graphs"]);
+            let a = inner[t].as_array_mut()?;
+            a.pop()?;
+            Some("truncated-table")
+        }
+        2 => {
+            let g = pick_graph(rng)?;
+            let a = inner["graphs"][g]["nodes"].as_array_mut()?;
+            a.pop()?;
+            Some("truncated-nodes")
+        }
+        3 => {
+            let a = inner["graphs_names"].as_array_mut()?;
+            if a.is_empty() { a.push(json!([0, "m"])); }
+            let i = rng.below(a.len() as u64) as usize;
+            a[i][0] = json!(big(rng, ng));
+            Some("graphs_names-id-out-of-range")
+        }
+        4 => {
+            let a = inner["nodes_names"].as_array_mut()?;
+            if a.is_empty() { a.push(json!([[0, 0], "m"])); }
+            let i = rng.below(a.len() as u64) as usize;
+            let which = rng.below(2) as usize;
+            a[i][0][which] = json!(big(rng, if which == 0 { ng } else { 3 }));
+            Some("nodes_names-id-out-of-range")
+        }
+        5 => {
+            let a = inner["nodes_annotations"].as_array_mut()?;
+            if a.is_empty() { a.push(json!([[0, 0], ["Private"]])); }
+            let i = rng.below(a.len() as u64) as usize;
+            let which = rng.below(2) as usize;
+            a[i][0][which] = json!(big(rng, if which == 0 { ng } else { 3 }));
+            Some("nodes_annotations-id-out-of-range")
+        }
+        6 => {
+            let a = inner["graphs_annotations"].as_array_mut()?;
+            if a.is_empty() { a.push(json!([0, ["SmallState"]])); }
+            let i = rng.below(a.len() as u64) as usize;
+            a[i][0] = json!(big(rng, ng));
+            Some("graphs_annotations-id-out-of-range")
+        }
+        7 => {
+            inner["main_graph"] = json!(big(rng, ng));
+            Some("main-out-of-range")
+        }
+        8 => {
+            let g = pick_graph(rng)?;
+            let n = inner["graphs"][g]["nodes"].as_array()?.len() as u64;
+            inner["graphs"][g]["output_node"] = json!(big(rng, n));
+            Some("output-out-of-range")
+        }
+        9 | 10 => {
+            // dangling / forward node dependency
+            let g = pick_graph(rng)?;
+            let nodes = inner["graphs"][g]["nodes"].as_array_mut()?;
+            if nodes.is_empty() { return None; }
+            let i = rng.below(nodes.len() as u64) as usize;
+            let deps = nodes[i]["node_dependencies"].as_array_mut()?;
+            let v = json!(match rng.below(3) { 0 => i as u64, 1 => i as u64 + 1, _ => u64::MAX });
+            if deps.is_empty() { deps.push(v); } else { let k = rng.below(deps.len() as u64) as usize; deps[k] = v; }
+            Some("dangling-node-dependency")
+        }
+        11 => {
+            let g = pick_graph(rng)?;
+            let nodes = inner["graphs"][g]["nodes"].as_array_mut()?;
+            if nodes.is_empty() { return None; }
+            let i = rng.below(nodes.len() as u64) as usize;
+            let deps = nodes[i]["graph_dependencies"].as_array_mut()?;
+            let v = json!(match rng.below(3) { 0 => g as u64, 1 => ng, _ => u64::MAX });
+            if deps.is_empty() { deps.push(v); } else { deps[0] = v; }
+            Some("bad-graph-dependency")
+        }
+        12 => {
+            // swap two nodes
+            let g = pick_graph(rng)?;
+            let nodes = inner["graphs"][g]["nodes"].as_array_mut()?;
+            if nodes.len() < 2 { return None; }
+            let i = rng.below(nodes.len() as u64 - 1) as usize;
+            nodes.swap(i, i + 1);
+            Some("swapped-nodes")
+        }
+        13 => {
+            // swap the two dependency ids of a node
+            let g = pick_graph(rng)?;
+            let nodes = inner["graphs"][g]["nodes"].as_array_mut()?;
+            let c: Vec<usize> = (0..nodes.len()).filter(|i| nodes[*i]["node_dependencies"].as_array().map_or(false, |d| d.len() >= 2 && d[0] != d[1])).collect();
+            if c.is_empty() { return None; }
+            let i = c[rng.below(c.len() as u64) as usize];
+            nodes[i]["node_dependencies"].as_array_mut()?.swap(0, 1);
+            Some("swapped-dependency-ids")
+        }
+        14 => {
+            if ng < 2 { return None; }
+            let a = inner["graphs"].as_array_mut()?;
+            let i = rng.below(ng - 1) as usize;
+            a.swap(i, i + 1);
+            Some("swapped-graphs")
+        }
+        15 => {
+            // duplicate a name entry (same key or same name under another key)
+            let t = *rng.pick(&["graphs_names", "nodes_names"]);
+            let a = inner[t].as_array_mut()?;
+            if a.is_empty() { return None; }
+            let mut e = a[rng.below(a.len() as u64) as usize].clone();
+            if rng.chance(1, 2) {
+                if t == "graphs_names" { e[0] = json!(e[0].as_u64().unwrap_or(0).wrapping_add(1) % ng.max(1)); } else { e[0][1] = json!(e[0][1].as_u64().unwrap_or(0) ^ 1); }
+            }
+            a.push(e);
+            Some("duplicate-name")
+        }
+        16 => {
+            let g = pick_graph(rng)?;
+            let f = inner["graphs"][g]["finalized"].as_bool()?;
+            inner["graphs"][g]["finalized"] = json!(!f);
+            Some("flipped-graph-finalized")
+        }
+        17 => {
+            let f = inner["finalized"].as_bool()?;
+            inner["finalized"] = json!(!f);
+            if rng.chance(1, 2) { inner["main_graph"] = J::Null; }
+            Some("flipped-context-finalized")
+        }
+        18 => {
+            let g = pick_graph(rng)?;
+            inner["graphs"][g]["output_node"] = J::Null;
+            Some("removed-output")
+        }
+        19 => {
+            // replace an operation by another one of the payload (type errors on replay)
+            let g = pick_graph(rng)?;
+            let nodes = inner["graphs"][g]["nodes"].as_array_mut()?;
+            if nodes.len() < 2 { return None; }
+            let i = rng.below(nodes.len() as u64) as usize;
+            let j = rng.below(nodes.len() as u64) as usize;
+            let o = nodes[j]["operation"].clone();
+            nodes[i]["operation"] = o;
+            Some("replaced-operation")
+        }
+        20 => {
+            let g = pick_graph(rng)?;
+            let nodes = inner["graphs"][g]["nodes"].as_array_mut()?;
+            if nodes.is_empty() { return None; }
+            let i = rng.below(nodes.len() as u64) as usize;
+            nodes[i]["operation"] = match rng.below(3) { 0 => json!("NoSuchOperation"), 1 => json!({"Custom": {"body": {"type": "NoSuchCustomOp"}}}), _ => json!({"Input": 5}) };
+            Some("unknown-operation")
+        }
+        _ => {
+            // annotate the same key twice / empty annotation list
+            let a = inner["nodes_annotations"].as_array_mut()?;
+            if a.is_empty() { return None; }
+            let e = a[rng.below(a.len() as u64) as usize].clone();
+            a.push(e);
+            Some("duplicate-annotation-key")
+        }
+    }
+}
+
+fn mutants(text: &str, kind: &str, nmut: usize, rng: &mut Rng, tags: &mut Tags, out: &mut Out, model: bool) {
+    let (ver0, inner0) = split_envelope(text);
+    let pool = lst(&POOL, |s| coq_string(s));
+    for _ in 0..nmut {
+        let (mut ver, mut inner) = (ver0, inner0.clone());
+        let mut names = vec![];
+        for _ in 0..(1 + rng.below(2)) {
+            if let Some(m) = mutate(&mut ver, &mut inner, rng) {
+                names.push(m);
+            }
+        }
+        if names.is_empty() {
+            continue;
+        }
+        let mname = names.join("+");
+        let mtext = envelope(ver, &inner);
+        let input = json!({"base": kind, "mutation": mname, "text": if mtext.len() < 3000 { mtext.clone() } else { format!("{}...", &mtext[..3000]) }});
+        let r = deserialize(&mtext);
+        out.stat(&format!("mutant:{}:{}", names[0], match &r { De::Ok(_) => "Ok", De::Err => "Err", De::Panic => "Panic" }));
+        let rhs = match &r {
+            De::Panic => {
+                out.violation("deserialize-panics", input.clone(), format!("from_str panics on a structural mutant ({})", mname));
+                "Panic".to_string()
+            }
+            De::Err => {
+                out.oracle_ok();
+                "Err".to_string()
+            }
+            De::Ok(c) => {
+                match check_invariants(c, &HashSet::new()) {
+                    Ok(()) => out.oracle_ok(),
+                    Err(m) => out.violation("deserialize-ill-formed", input.clone(), format!("{}: {}", mname, m)),
+                }
+                format!("(Ok {})", observe_ctx(c, tags, &HashSet::new(), &POOL).full())
+            }
+        };
+        if model {
+            if let Ok(p) = serde_json::from_value::<PCtx>(inner.clone()) {
+                if node_count(&p) <= 400 {
+                    let x = sctx_term(&p, tags);
+                    let tbl = replay_answers(&p, tags);
+                    out.case("deser_mutant", format!("(deser_obs {} {} ({}, {}))%N", pool, tbl, ver, x), format!("{}%N", rhs), input.clone(), true);
+                }
+            } else {
+                out.stat("mutant-rejected-by-text-layer");
+            }
+        }
+    }
+    // garbage payloads in a well-formed envelope
+    for g in ["{not json", "", "null", "[]", "{}", "{\"finalized\":true}", "\u{0}\u{1}"] {
+        let mtext = json!({"version": ver0, "data": g}).to_string();
+        match deserialize(&mtext) {
+            De::Panic => out.violation("deserialize-panics", json!({"base": kind, "payload": g}), "from_str panics on a garbage payload".into()),
+            De::Ok(_) => out.violation("deserialize-accepts-garbage", json!({"base": kind, "payload": g}), "garbage payload accepted".into()),
+            De::Err => out.oracle_ok(),
+        }
+    }
+}
+
+fn byte_mutants(text: &str, kind: &str, n: usize, rng: &mut Rng, out: &mut Out) {
+    let bytes = text.as_bytes();
+    for _ in 0..n {
+        let mut v = bytes.to_vec();
+        let m = rng.below(5);
+        let pos = rng.below(v.len() as u64) as usize;
+        match m {
+            0 => v.truncate(pos),
+            1 => v[pos] = rng.next() as u8,
+            2 => { v.remove(pos); }
+            3 => v.insert(pos, *rng.pick(&[b'"', b'\\', b'{', b'[', b'9', b',', b'-', 0u8, 0xff])),
+            _ => {
+                // mutate a digit: ids and versions change
+                let digits: Vec<usize> = (0..v.len()).filter(|i| v[*i].is_ascii_digit()).collect();
+                if !digits.is_empty() {
+                    let p = digits[rng.below(digits.len() as u64) as usize];
+                    v[p] = b'0' + rng.below(10) as u8;
+                }
+            }
+        }
+        let r = match String::from_utf8(v.clone()) {
+            Ok(s) => deserialize(&s),
+            Err(_) => match catch_unwind(AssertUnwindSafe(|| serde_json::from_slice::<Context>(&v))) {
+                Ok(Ok(c)) => De::Ok(c),
+                Ok(Err(_)) => De::Err,
+                Err(_) => De::Panic,
+            },
+        };
+        out.stat(&format!("bytes:{}", match &r { De::Ok(_) => "Ok", De::Err => "Err", De::Panic => "Panic" }));
+        let input = json!({"base": kind, "mutation": m, "pos": pos});
+        match r {
+            De::Panic => out.violation("deserialize-panics", input, "from_str panics on a byte-level mutant".into()),
+            De::Err => out.oracle_ok(),
+            De::Ok(c) => match check_invariants(&c, &HashSet::new()) {
+                Ok(()) => out.oracle_ok(),
+                Err(msg) => out.violation("deserialize-ill-formed", input, msg),
+            },
+        }
+    }
+}
+
+fn custom_op_json(out: &mut Out) {
+    let ops: Vec<CustomOperation> = vec![
+        CustomOperation::new(Not {}),
+        CustomOperation::new(Or {}),
+        CustomOperation::new(BinaryAdd { overflow_bit: true }),
+        CustomOperation::new(GreaterThan { signed_comparison: true }),
+        CustomOperation::new(LessThan { signed_comparison: false }),
+        CustomOperation::new(Equal {}),
+        CustomOperation::new(NotEqual {}),
+        CustomOperation::new(Min { signed_comparison: true }),
+        CustomOperation::new(Max { signed_comparison: false }),
+        CustomOperation::new(Mux {}),
+        CustomOperation::new(Clip2K { k: 7 }),
+    ];
+    for op in ops {
+        let s = serde_json::to_string(&op).unwrap();
+        match catch_unwind(AssertUnwindSafe(|| serde_json::from_str::<CustomOperation>(&s))) {
+            Ok(Ok(op2)) if op2 == op => out.oracle_ok(),
+            _ => out.violation("roundtrip-fails-custom-op", json!({"json": s}), "a custom operation does not survive its own serde form".into()),
+        }
+    }
+    // mpc_truncate.rs:28 TruncateMPC { scale: u128 } is crate-private; its serde form is what a
+    // compiled-but-not-instantiated context contains
+    for s in [r#"{"body":{"type":"TruncateMPC","scale":2}}"#, r#"{"body":{"type":"TruncateMPC","scale":340282366920938463463374607431768211455}}"#] {
+    match catch_unwind(AssertUnwindSafe(|| serde_json::from_str::<CustomOperation>(s))) {
+        Ok(Ok(op)) => {
+            out.stat("TruncateMPC-json:Ok");
+            if serde_json::to_string(&op).unwrap() == s { out.oracle_ok() } else { out.violation("roundtrip-fails-TruncateMPC-u128", json!({"json": s}), "serde form changes".into()) }
+        }
+        Ok(Err(e)) => out.violation("roundtrip-fails-TruncateMPC-u128", json!({"json": s}), format!("from_str::<CustomOperation> of the serde form of TruncateMPC: {}", e)),
+        Err(_) => out.violation("deserialize-panics", json!({"json": s}), "panic".into()),
+    }
+    }
+}
+
+pub fn run(tier: &str, seed: u64, out: &mut Out) {
+    if std::env::var("C12_DEBUG").is_ok() { std::panic::set_hook(Box::new(|i| eprintln!("PANIC {}", i))); }
+    let mut rng = Rng::new(seed ^ 0xC12);
+    let mut tags = Tags::new();
+    let (rounds, nmut, nbytes, nhist) = match tier { "thorough" => (3, 24, 150, 100), "search" => (10, 80, 400, 300), _ => (1, 9, 30, 24) };
+    let with_model = tier != "search";
+    custom_op_json(out);
+    for round in 0..rounds {
+        let mut kinds: Vec<(String, R<Context>)> = vec![];
+        kinds.push(("plain-unfinalized".into(), plain_context(&mut rng, false)));
+        kinds.push(("plain".into(), plain_context(&mut rng, true)));
+        let callc = call_context(&mut rng);
+        kinds.push(("call-iterate".into(), callc.clone()));
+        let cust = custom_context(&mut rng);
+        kinds.push(("custom-ops".into(), cust.clone()));
+        if let Ok(c) = &cust {
+            kinds.push(("instantiated".into(), run_instantiation_pass(c.clone()).map(|m| m.get_context())));
+        }
+        if let Ok(c) = &callc {
+            for (nm, mode) in [("inlined-noop", InlineMode::Noop), ("inlined-simple", InlineMode::Simple), ("inlined-depth", InlineMode::DepthOptimized(DepthOptimizationLevel::Default))] {
+                let cfg = InlineConfig { default_mode: mode, ..Default::default() };
+                kinds.push((nm.into(), inline_operations(c, cfg).map(|m| m.get_context())));
+            }
+        }
+        for with_bits in [false, true] {
+            let ar = arith_context(&mut rng, with_bits);
+            if let Ok(c) = &ar {
+                let comp = compiled(c, &mut rng);
+                if let Ok(cc) = &comp {
+                    kinds.push((format!("optimised{}", if with_bits { "-a2b" } else { "" }), SimpleEvaluator::new(None).and_then(|e| optimize_context(cc, e)).map(|m| m.get_context())));
+                }
+                kinds.push((format!("compiled{}", if with_bits { "-a2b" } else { "" }), comp));
+            }
+        }
+        for (kind, r) in kinds {
+            match r {
+                Err(e) => {
+                    out.stat(&format!("build-failed:{}", kind));
+                    out.note(&format!("build-failed:{}", kind), json!(e.to_string()));
+                }
+                Ok(ctx) => {
+                    let nodes: u64 = ctx.get_graphs().iter().map(|g| g.get_num_nodes()).sum();
+                    out.stat(&format!("nodes:{}", match nodes { 0..=19 => "0-19", 20..=99 => "20-99", 100..=999 => "100-999", _ => "1000+" }));
+                    // the model cases carry the whole payload as a term: bounded sizes
+                    let model = with_model && nodes <= 400;
+                    if let Some(text) = roundtrip(&ctx, &kind, &mut rng, &mut tags, out, model, None) {
+                        mutants(&text, &kind, if nodes <= 100 { nmut } else { nmut / 4 }, &mut rng, &mut tags, out, with_model && nodes <= 150);
+                        byte_mutants(&text, &kind, if text.len() < 100_000 { nbytes } else { nbytes / 5 }, &mut rng, out);
+                    }
+                }
+            }
+        }
+    }
+    // contexts from random API histories (several graphs, names, annotations, unfinalized parts)
+    for hi in 0..nhist {
+        let ncalls = 10 + rng.below(60) as usize;
+        let (ctxs, calls) = random_history(&mut rng, ncalls, 1, hi % 2 == 0, &mut tags, out, "h:");
+        if let Some(text) = roundtrip(&ctxs[0], "history", &mut rng, &mut tags, out, with_model, Some(&calls[0])) {
+            mutants(&text, "history", if tier == "quick" { 3 } else { 6 }, &mut rng, &mut tags, out, with_model);
+            byte_mutants(&text, "history", 10, &mut rng, out);
+        }
+    }
+    out.stat_n("distinct_ops", tags.ops.len() as u64);
+    out.stat_n("distinct_types", tags.tys.len() as u64);
+}
